@@ -1,9 +1,9 @@
 (** X03 (extra check, not a record of properties.jsonl) — typehelper.ToSlice returns the elements of a slice,
     in order, and panics exactly on values that are not of kind slice.
     Only the theorems (each closed by [exact]), their axiom audit and non-vacuity examples.
-    Model: Model/TypeHelper.v (the reflect calls and the index loop of toslice.go); vocabulary: Spec/TypeHelperSpec.v. *)
+    Model: Model/ToSliceValues.v (the reflect calls and the index loop of toslice.go); vocabulary: Spec/ToSliceValuesSpec.v. *)
 From Coq Require Import ZArith List Bool.
-From Low Require Import Lib.BitSeq Model.TypeHelper Spec.TypeHelperSpec Proofs.TypeHelperProofs.
+From Low Require Import Lib.BitSeq Model.ToSliceValues Spec.ToSliceValuesSpec Proofs.ToSliceValuesProofs.
 Import ListNotations.
 Open Scope Z_scope.
 
